@@ -438,10 +438,23 @@ impl Chain {
                     new_shards.push((Pool::Ironwood, (sizes[2] / 65536 - 1) as u64, r, height));
                 }
             }
-            // position-dependent Sapling nullifiers of re-mined notes are no longer known
+            // position-dependent Sapling nullifiers of re-mined notes: derived again at the new position from the note
+            // recovered by trial decryption under the account's external key (internal-scope ones stay unknown)
             for o in &abs.outs {
                 if o.note > 0 && o.pool == Pool::Sapling {
-                    self.notes.get_mut(&o.note).unwrap().nf = Nf::Unknown;
+                    let pos = self.notes[&o.note].pos;
+                    let nf = if o.internal || o.acct == 0 {
+                        Nf::Unknown
+                    } else {
+                        let dfvk = &self.accounts[(o.acct - 1) as usize].sapling;
+                        let ivk = sapling::keys::PreparedIncomingViewingKey::new(&dfvk.to_ivk(zip32::Scope::External));
+                        sapling::note_encryption::CompactOutputDescription::try_from(&ctx.outputs[o.index as usize])
+                            .ok()
+                            .and_then(|cod| sapling::note_encryption::try_sapling_compact_note_decryption(&ivk, &cod, sapling::note_encryption::Zip212Enforcement::On))
+                            .map(|(note, _)| Nf::Sapling(note.nf(&dfvk.fvk().vk.nk, pos)))
+                            .unwrap_or(Nf::Unknown)
+                    };
+                    self.notes.get_mut(&o.note).unwrap().nf = nf;
                 }
             }
             cb.vtx.push(ctx);
